@@ -16,7 +16,13 @@
     chk topo <V> <E> <list|err:custom>  valid | invalid:<why>      isTopo / hasCycle
     chk cacyc <V> <E> <r> <V'> <E'>     valid | invalid:<why>      checkAcyclicGraph
     <op> ; <op> ; ...                   an edit history from the empty graph; op = iv v | ie h t | re h t | rv v | ru r
-        answer per op (joined by ` ; `): `<ok|err:..|panic|dead> V=.. E=.. S=.. P=..`
+        answer per op (joined by ` ; `): `<ok|err:..|panic|dead> V=.. E=.. S=.. P=.. Q=.. X=..`, then a final
+        element `eq-rebuilt=true|false`.  Q: every public per-vertex query (has_vertex, vertex, edges_in,
+        edges_out, successors, predecessors, successor_indices, predecessor_indices) on every id the history
+        mentions anywhere plus one it never mentions: `ok` when each id answers as present (all Ok, the three
+        successor answers equal, the three predecessor answers equal) or as absent (all vertex-not-found),
+        otherwise `!` and the full outcomes of the offending ids.  X: has_edge/edge on every mentioned pair.
+        eq-rebuilt: the graph `==` a graph rebuilt from its own vertices()/edges().
         model column = the container mirror (four views), spec column = the abstract (V, E) graph with
         the successor/predecessor views derived from E.
 -/
@@ -133,27 +139,97 @@ def dumpG (g : Graph) : String := dumpViews g.verts g.edges g.succ g.pred
 def dumpS (s : SGraph) : String :=
   dumpViews s.V s.E (s.V.map (fun v => (v, s.succOf v))) (s.V.map (fun v => (v, s.predOf v)))
 
-def runModel : Option Graph → List Op → List String
-  | _, [] => []
-  | none, _ :: ops => "dead" :: runModel none ops
+/-- outcome of a per-vertex list query, canonical text -/
+def lqStr : GRes (List Nat) → String
+  | .ok l => plus (sortN l)
+  | .err e => toString e
+  | .panic => "panic"
+
+def uStr : GRes Unit → String
+  | .ok _ => "ok"
+  | .err e => toString e
+  | .panic => "panic"
+
+/-- the per-vertex / per-edge probes of the harness, answered from the mirror's four maps
+    (same classification: `ok` when every id answers as present or as absent, else the full outcomes) -/
+def probeG (g : Graph) (ids : List Nat) (pairs : EL) : String :=
+  let qbad := ids.filterMap (fun v =>
+    let listed := decide (v ∈ g.verts)
+    let vx := uStr (g.qVertex v)
+    let ei := lqStr (g.qEdgesIn v); let eo := lqStr (g.qEdgesOut v)
+    let su := lqStr (g.qSuccessors v); let pr := lqStr (g.qPredecessors v)
+    let si := lqStr (g.qSuccIdx v); let pi := lqStr (g.qPredIdx v)
+    let isOk := fun (r : GRes (List Nat)) => match r with | .ok _ => true | _ => false
+    let vnf := s!"err:vnf:{v}"
+    let present := listed && vx == "ok" && isOk (g.qSuccIdx v) && su == si && eo == si
+      && isOk (g.qPredIdx v) && pr == pi && ei == pi
+    let absent := !listed && vx == vnf && ei == vnf && eo == vnf && su == vnf && pr == vnf && si == vnf && pi == vnf
+    if present || absent then none
+    else
+      let t := if listed then "t" else "f"
+      some s!"{v}:listed={t},hv={t},vx={vx},ei={ei},eo={eo},su={su},pr={pr},si={si},pi={pi}")
+  let xbad := pairs.filterMap (fun e =>
+    let listed := decide (e ∈ g.edges)
+    let ed := uStr (g.qEdge e.1 e.2)
+    let present := listed && ed == "ok"
+    let absent := !listed && ed == s!"err:enf:{e.1}>{e.2}"
+    if present || absent then none
+    else
+      let t := if listed then "t" else "f"
+      some s!"{e.1}>{e.2}:listed={t},he={t},ed={ed}")
+  let q := if qbad.isEmpty then "ok" else "!" ++ "/".intercalate qbad
+  let x := if xbad.isEmpty then "ok" else "!" ++ "/".intercalate xbad
+  s!"Q={q} X={x}"
+
+/-- the ids and pairs a history mentions anywhere, plus one id it never mentions -/
+def mentioned (ops : List Op) : List Nat × EL :=
+  let ids := ops.flatMap (fun op => match op with
+    | .iv v => [v] | .rv v => [v] | .ru v => [v] | .ie h t => [h, t] | .re h t => [h, t])
+  let pairs := ops.flatMap (fun op => match op with
+    | .ie h t => [(h, t)] | .re h t => [(h, t)] | _ => [])
+  let extra := match ids.foldl (fun (m : Option Nat) x => match m with | none => some x | some y => some (max x y)) none with
+    | none => 0
+    | some m => m + 1
+  (sortN (dedup (extra :: ids)), sortE (pairs.eraseDups))
+
+/-- the mirror of `g == rebuilt`: rebuild from `vertices()`/`edges()` through the mirror's own insertions
+    and compare the four maps (as the derived `PartialEq` of the BTreeMaps does) -/
+def eqRebuilt (g : Graph) : String :=
+  let r0 : Option Graph := (sortN g.verts).foldl (fun acc v => match acc with
+    | some r => (match r.insertVertex v with | .ok r' => some r' | _ => none)
+    | none => none) (some Graph.empty)
+  let r1 : Option Graph := (sortE g.edges).foldl (fun acc e => match acc with
+    | some r => (match r.insertEdge e.1 e.2 with | .ok r' => some r' | _ => none)
+    | none => none) r0
+  match r1 with
+  | some r => "eq-rebuilt=" ++ bstr (dumpG r == dumpG g)
+  | none => "eq-rebuilt=rebuild-failed"
+
+def runModel (ids : List Nat) (pairs : EL) : Option Graph → List Op → List String
+  | none, [] => ["eq-rebuilt=dead"]
+  | some g, [] => [eqRebuilt g]
+  | none, _ :: ops => "dead" :: runModel ids pairs none ops
   | some g, op :: ops =>
     match op.apply g with
-    | .ok g' => ("ok " ++ dumpG g') :: runModel (some g') ops
-    | .err e => (toString e ++ " " ++ dumpG g) :: runModel (some g) ops
-    | .panic => "panic" :: runModel none ops
+    | .ok g' => ("ok " ++ dumpG g' ++ " " ++ probeG g' ids pairs) :: runModel ids pairs (some g') ops
+    | .err e => (toString e ++ " " ++ dumpG g ++ " " ++ probeG g ids pairs) :: runModel ids pairs (some g) ops
+    | .panic => "panic" :: runModel ids pairs none ops
 
+/-- the abstract graph answers every per-vertex query on an id outside V with vertex-not-found, every
+    per-edge query on a pair outside E with edge-not-found, and equals its own rebuild -/
 def runSpec : SGraph → List Op → List String
-  | _, [] => []
+  | _, [] => ["eq-rebuilt=true"]
   | s, op :: ops =>
     match s.apply op with
-    | .ok s' => ("ok " ++ dumpS s') :: runSpec s' ops
-    | .err e => (toString e ++ " " ++ dumpS s) :: runSpec s ops
+    | .ok s' => ("ok " ++ dumpS s' ++ " Q=ok X=ok") :: runSpec s' ops
+    | .err e => (toString e ++ " " ++ dumpS s ++ " Q=ok X=ok") :: runSpec s ops
     | .panic => "panic" :: runSpec s ops
 
 def handleHistory (line : String) : String :=
   match (line.splitOn " ; ").mapM parseOp with
   | some ops =>
-    " ; ".intercalate (runModel (some Graph.empty) ops) ++ "\t" ++ " ; ".intercalate (runSpec SGraph.empty ops)
+    let (ids, pairs) := mentioned ops
+    " ; ".intercalate (runModel ids pairs (some Graph.empty) ops) ++ "\t" ++ " ; ".intercalate (runSpec SGraph.empty ops)
   | none => "bad-request\t-"
 
 def handle (line : String) : String :=
